@@ -75,8 +75,11 @@ Step == Config \/ Call \/ WireEv \/ ParseEv \/ RespondEv \/ ServerDone \/ Return
 RECURSIVE NextBoundary(_)
 NextBoundary(k) == IF k > Len(Trace) THEN k ELSE IF Trace[k].ev \in {"Call", "Config"} THEN k ELSE NextBoundary(k + 1)
 
+\* known finding: a component request body whose schema is an inline object has no JSON methods (Go's default encoding on the wire)
+KF == IF call.has /\ OpOf(call.op).bodyVia = "componentInlineObject" /\ Ev.ev \in {"Wire", "Parse"} THEN "c09-component-body-inline-object" ELSE ""
+
 Skip == /\ l <= Len(Trace) /\ ~ENABLED Step
-        /\ PrintT(ToJson([verdict |-> "REJECT", case |-> cur, at |-> l, event |-> [ev |-> Ev.ev], kf |-> "",
+        /\ PrintT(ToJson([verdict |-> "REJECT", case |-> cur, at |-> l, event |-> [ev |-> Ev.ev], kf |-> KF,
                           why |-> [at |-> Ev.ev, wireOK |-> wireOK, parsed |-> parsed.has, responded |-> responded.has, served |-> served.has]]))
         /\ stats' = [stats EXCEPT !.rejected = @ + 1]
         /\ call' = None /\ l' = NextBoundary(l + 1)
